@@ -167,7 +167,19 @@ func genCuts(r *Rng, n int) []int {
 	switch r.Intn(8) {
 	case 0, 1:
 		return nil // whole
-	case 2: // octet by octet
+	case 2: // octet by octet (long frames: the first 40 octets, then larger pieces — the model evaluates every Read)
+		if n > 1500 {
+			c := make([]int, 40)
+			for i := range c {
+				c[i] = 1
+			}
+			for left := n - 40; left > 0; {
+				k := 1 + r.Intn(min(left, 700))
+				c = append(c, k)
+				left -= k
+			}
+			return c
+		}
 		c := make([]int, n)
 		for i := range c {
 			c[i] = 1
